@@ -13,10 +13,12 @@ Init == l \in 1..Len(Trace)
 Next == UNCHANGED l
 Spec == Init /\ [][Next]_l
 R == Trace[l]
-Finished         == R.status = "ok"                                    \* the run returned (no crash, no hang)
+(* a run whose source faults while it is read (fault > 0) may abort; what it may not do is report success with features missing *)
+Finished         == R.fault > 0 \/ R.status = "ok"                                    \* the run returned (no crash, no hang)
 NoDataRace       == R.races = 0
 EveryRowArrived  == R.status = "ok" => /\ \A i \in 1..Len(R.rows) : R.rows[i] = R.expected
                                        /\ \A i \in 1..Len(R.other_rows) : R.other_rows[i] = R.other_expected
+FaultNotSilent   == (R.fault > 0 /\ R.status = "ok") => \A i \in 1..Len(R.fault_rows) : R.fault_rows[i] = R.fault_expected
 OwnGeometryOnly  == R.status = "ok" => R.wrong_geom = 0
 SourceOrder      == R.status = "ok" => R.disorder = 0
 =============================================================================
